@@ -191,12 +191,16 @@ fn run() {
     r.add("drivers", drivers.len() as u64);
     r.flag("exhaustive", true);
     let (cap_exec, cap_wall) = if thorough { (5_000_000, 600) } else { (500_000, 60) };
+    let budget = sched::Budget::new(if thorough { 2400 } else { 200 }, cap_wall);
+    let mut left: usize = drivers.iter().enumerate().filter(|(i, _)| common::mine(*i)).count();
     for (i, (d, bounds)) in drivers.into_iter().enumerate() {
         // drivers are distributed over the worker processes (each explores its drivers completely)
         if !common::mine(i) {
             continue;
         }
-        if !explore_driver_with_worker(d, &bounds, cap_exec, cap_wall, &mut r) {
+        let share = budget.share(left);
+        left -= 1;
+        if !explore_driver_with_worker(d, &bounds, cap_exec, (share / bounds.len().max(1) as u64).max(5), &mut r) {
             break;
         }
     }
